@@ -580,3 +580,239 @@ pub fn minimise_scenario(sc: &Scenario, property: &str, signature: &str, n_sched
     }
     (best, best_strat)
 }
+
+
+// ---------------------------------------------------------------------------------------------
+// C12: node outages
+
+/// Scenario for C12: appointments and (sometimes) trackers are in place, blocks with disputes are waiting to be polled;
+/// the chain thread polls repeatedly, an API thread submits / reads, the environment thread brings the node back some
+/// time after it went down. The outage itself is placed by the caller (at the n-th RPC or block-source call).
+pub fn gen_outage_scenario(property: &str, seed: u64) -> Scenario {
+    let mut r = Rng::new(derive(seed, "outage", 0));
+    let cfg = TowerCfg { slots: 20, duration: 4320, grace: 6, txindex: r.chance(1, 4), start_height: r.range(101, 108) as u32 };
+    let mut prefix = vec![Op::Register { u: 0 }, Op::Register { u: 1 }];
+    prefix.push(add(0, 0, 0, 0));
+    if r.chance(1, 2) {
+        prefix.push(add(1, 1, 0, 0));
+    }
+    if r.chance(1, 3) {
+        // an old unconfirmed tracker so that the rebroadcast path runs during the outage
+        prefix.push(add(0, 2, 0, 0));
+        prefix.push(Op::Mine { txs: vec![TxRef::Dispute(2)] });
+        prefix.push(Op::Poll);
+        for _ in 0..5 {
+            prefix.push(Op::Mine { txs: vec![] });
+        }
+        prefix.push(Op::Poll);
+    }
+    if r.chance(1, 3) {
+        // a late appointment whose dispute is already in the cache (request path reaches the node)
+        prefix.push(Op::Mine { txs: vec![TxRef::Dispute(3)] });
+        prefix.push(Op::Poll);
+    }
+    // blocks waiting to be polled
+    let mut txs = vec![TxRef::Dispute(0)];
+    if r.chance(1, 2) {
+        txs.push(TxRef::Dispute(1));
+    }
+    prefix.push(Op::Mine { txs });
+    let extra = r.below(3);
+    for _ in 0..extra {
+        prefix.push(Op::Mine { txs: vec![] });
+    }
+    let n_polls = r.range(3, 6) as usize;
+    let mut t0: Vec<Op> = (0..n_polls).map(|_| Op::Poll).collect();
+    // once the node is back, two more polls: the tower must resume by itself within them
+    t0.push(Op::WaitNodeUp { max: 600 });
+    t0.push(Op::Poll);
+    t0.push(Op::Poll);
+    let mut t1 = vec![];
+    for _ in 0..r.range(1, 3) {
+        t1.push(match r.below(5) {
+            0 => add(1, 3, 0, 0),
+            1 => add(0, 4, 0, 0),
+            2 => Op::Get { u: 0, d: 0, sig: Sig::Good },
+            3 => Op::Register { u: 1 },
+            _ => add(1, 0, 0, 0),
+        });
+    }
+    let t2 = vec![Op::WaitNodeDown { max: 400 }, Op::NodeUp];
+    Scenario {
+        property: property.to_string(),
+        seed,
+        cfg,
+        prefix,
+        threads: vec![t0, t1, t2],
+        down_at_rpc: None,
+        down_at_bs: None,
+    }
+}
+
+fn first_kind(name: &str) -> &str {
+    name.split(',').next().unwrap_or(name)
+}
+
+/// Signature of a stuck run: who waits for what (thread identified by its first operation kind).
+fn stuck_signature(detail: &str) -> String {
+    let mut parts: Vec<String> = detail
+        .split('+')
+        .filter(|p| !p.is_empty())
+        .map(|p| {
+            let (name, want) = p.split_once(':').unwrap_or((p, ""));
+            // drop the held_by(...) part
+            let want = want.split("held_by").next().unwrap_or(want);
+            format!("{}:{}", first_kind(name), want)
+        })
+        .collect();
+    parts.sort();
+    parts.dedup();
+    parts.join("+")
+}
+
+/// Explores one outage scenario: dry run (numbers the node calls), then an outage starting at each (sampled / every)
+/// call, each under a couple of schedules.
+pub fn explore_outage(sc: &Scenario, thorough: bool) -> ScenarioOutcome {
+    let mut out = ScenarioOutcome {
+        found: vec![],
+        runs: 0,
+        schedules: vec![],
+        steps: 0,
+        preemptions: 0,
+        lock_cycles: 0,
+        fired: Default::default(),
+        probes: Default::default(),
+    };
+    // dry run without outage under a fixed priority order
+    let dry = run_scenario(sc, Some(Strategy::Order(vec![0, 1, 2])), None, 1, true);
+    out.runs += 1;
+    let n_rpc = dry.rpcs_in_phase;
+    let n_bs = dry.bs_in_phase;
+    let est = dry.sched.as_ref().map(|s| s.steps as u32).unwrap_or(60).max(10);
+    let mut r = Rng::new(derive(sc.seed, "outage-points", 0));
+    let mut points: Vec<(bool, u64)> = vec![];
+    if thorough {
+        points.extend((1..=n_rpc).map(|n| (true, n)));
+        points.extend((1..=n_bs).map(|n| (false, n)));
+    } else {
+        for _ in 0..4 {
+            if n_rpc > 0 {
+                points.push((true, r.range(1, n_rpc)));
+            }
+        }
+        for _ in 0..3 {
+            if n_bs > 0 {
+                points.push((false, r.range(1, n_bs)));
+            }
+        }
+        points.sort();
+        points.dedup();
+    }
+    let n_sched = if thorough { 3 } else { 2 };
+    for (is_rpc, n) in points {
+        let mut sc2 = sc.clone();
+        if is_rpc {
+            sc2.down_at_rpc = Some(n);
+        } else {
+            sc2.down_at_bs = Some(n);
+        }
+        for (spec, _, seed) in strategies_for(derive(sc.seed, "outage-sched", n * 2 + is_rpc as u64), est, n_sched) {
+            let (strategy, _) = strategy_of(&spec, est);
+            let res = run_scenario(&sc2, Some(strategy), None, seed, true);
+            out.runs += 1;
+            for (k, v) in res.fired.iter() {
+                *out.fired.entry(k.clone()).or_insert(0) += v;
+            }
+            let Some(sr) = res.sched.clone() else { continue };
+            out.steps += sr.steps;
+            out.preemptions += sr.preemptions;
+            out.schedules.push(sr.trace.clone());
+            let outage_fired = res.fired.keys().any(|k| k.starts_with("F1_outage"));
+            if outage_fired {
+                *out.probes.entry(if is_rpc { "outage_started_at_rpc" } else { "outage_started_at_block_source_call" }.into()).or_insert(0) += 1;
+            }
+            let place = if is_rpc { "rpc" } else { "block source call" };
+            let replay = Some(StratSpec::Replay(sr.trace.clone()));
+            let mut push = |sig: String, detail: String| {
+                out.found.push(CFound {
+                    property: "C12",
+                    signature: sig,
+                    detail: format!("outage from {place} #{n} under {spec:?}: {detail}"),
+                    strat: replay.clone(),
+                });
+            };
+            if let Some(stuck) = &sr.stuck {
+                if res.node_down_when_stuck {
+                    *out.probes.entry("inconclusive_node_still_down".into()).or_insert(0) += 1;
+                    continue;
+                }
+                let d = sr.stuck_detail.clone().unwrap_or_default();
+                *out.probes.entry("stuck_after_node_came_back".into()).or_insert(0) += 1;
+                push(
+                    format!("C12|no_recovery|{}", stuck_signature(&d)),
+                    format!("the node is reachable again but the tower never resumes ({stuck}): {d}"),
+                );
+                continue;
+            }
+            if let Some(a) = res.aborts.first() {
+                push(
+                    format!("C12|abort|panic at {}: {}", normalise_location(&a.location), first_line(&a.message)),
+                    format!("panic at {}: {}", normalise_location(&a.location), first_line(&a.message)),
+                );
+                continue;
+            }
+            if !res.unavailable_ok {
+                push("C12|not_unavailable".into(), "node flagged unreachable but the public API did not answer 'service unavailable'".into());
+                continue;
+            }
+            if !res.missing_penalties.is_empty() {
+                push("C12|penalty_dropped".into(), res.missing_penalties.join("; "));
+                continue;
+            }
+            // every block mined was delivered exactly once, in order, and the tower ends at the node's tip
+            let hs: Vec<u32> = res.blocks_seen.iter().map(|b| b.1).collect();
+            let contiguous = hs.windows(2).all(|w| w[1] == w[0] + 1);
+            if !contiguous || hs.last().cloned().unwrap_or(res.node_tip_height) != res.node_tip_height {
+                push(
+                    "C12|blocks_not_processed".into(),
+                    format!("blocks delivered to the listeners: {hs:?}, node tip {}", res.node_tip_height),
+                );
+                continue;
+            }
+            if let Err(e) = &res.live {
+                push(format!("C12|not_live|{}", first_line(e)), e.clone());
+            }
+        }
+    }
+    out
+}
+
+pub fn recheck_outage(sc: &Scenario, spec: &Option<StratSpec>, signature: &str) -> Option<String> {
+    let spec = spec.clone()?;
+    let (strategy, seed) = strategy_of(&spec, 60);
+    let res = run_scenario(sc, Some(strategy), None, seed, true);
+    let sr = res.sched.clone()?;
+    let mut sigs: Vec<(String, String)> = vec![];
+    if let Some(stuck) = &sr.stuck {
+        if !res.node_down_when_stuck {
+            let d = sr.stuck_detail.clone().unwrap_or_default();
+            sigs.push((format!("C12|no_recovery|{}", stuck_signature(&d)), format!("{stuck}: {d}")));
+        }
+    } else if let Some(a) = res.aborts.first() {
+        let d = format!("panic at {}: {}", normalise_location(&a.location), first_line(&a.message));
+        sigs.push((format!("C12|abort|{d}"), d));
+    } else if !res.unavailable_ok {
+        sigs.push(("C12|not_unavailable".into(), "API did not answer unavailable".into()));
+    } else if !res.missing_penalties.is_empty() {
+        sigs.push(("C12|penalty_dropped".into(), res.missing_penalties.join("; ")));
+    } else {
+        let hs: Vec<u32> = res.blocks_seen.iter().map(|b| b.1).collect();
+        let contiguous = hs.windows(2).all(|w| w[1] == w[0] + 1);
+        if !contiguous || hs.last().cloned().unwrap_or(res.node_tip_height) != res.node_tip_height {
+            sigs.push(("C12|blocks_not_processed".into(), format!("{hs:?} vs tip {}", res.node_tip_height)));
+        } else if let Err(e) = &res.live {
+            sigs.push((format!("C12|not_live|{}", first_line(e)), e.clone()));
+        }
+    }
+    sigs.into_iter().find(|s| s.0 == signature).map(|s| s.1)
+}
